@@ -15,14 +15,15 @@ open Text Path
 any depth) whose lexically normalised absolute forms are `/fd…/<file>` and `/td…/tf.ts`:
 `import_path` succeeds and its specifier is relative, has forward slashes only, carries no `.ts`
 extension, ends in `.js` exactly for ES modules, and resolves — from the directory of the importing
-file — to exactly the imported file. No bound on depth or name length. -/
+file — to exactly the imported file. No bound on depth or name length. A stem that itself ends in `.js` is excluded only
+without ES-module imports (there `./a.js` would be ambiguous; with them `a.js.ts` is imported as `./a.js.js`, which resolves). -/
 theorem C08_resolves (esm : Bool) (cwd frm imp dir p b : Str) (fd td : List Str) (tf : Str)
     (hdir : parent frm = some dir)
     (hp : absolute cwd imp = .ok p) (hb : absolute cwd dir = .ok b)
     (hpc : components p = Comp.root :: N (td ++ [tf ++ dotTs]))
     (hbc : components b = Comp.root :: N fd)
     (hok : ∀ n ∈ fd ++ td ++ [tf ++ dotTs], NameOK n)
-    (htf : tf ≠ []) (hts : endsWith dotTs tf = false) (hjs : endsWith dotJs tf = false)
+    (htf : tf ≠ []) (hts : endsWith dotTs tf = false) (hjs : esm = false → endsWith dotJs tf = false)
     (hnp : ¬ (td ++ [tf ++ dotTs]) <+: fd) :
     ∃ spec, importPath esm cwd frm imp = some (.ok spec) ∧
       specGood esm fd (td ++ [tf ++ dotTs]) spec = true := by
@@ -155,7 +156,6 @@ theorem C08_resolves (esm : Bool) (cwd frm imp dir p b : Str) (fd td : List Str)
   have hsplit' : splitChar '/' (intercalate ['/'] (S' ++ [tf ++ dotTs])) = S' ++ [tf ++ dotTs] :=
     splitChar_intercalate '/' _ (by simp) (fun q hq => (hS'pieces q hq).1)
   have hbase_ts := ext_none '.' 't' 's' (by decide) (by decide) (by decide) tf (intercalate ['/'] S') htf htfs hts
-  have hbase_js := ext_none '.' 'j' 's' (by decide) (by decide) (by decide) tf (intercalate ['/'] S') htf htfs hjs
   have htrim : trimEndMatches dotTs ((intercalate ['/'] S' ++ ['/'] ++ tf) ++ dotTs)
       = intercalate ['/'] S' ++ ['/'] ++ tf :=
     trimEndMatches_once dotTs _ (by decide) hbase_ts
@@ -194,6 +194,7 @@ theorem C08_resolves (esm : Bool) (cwd frm imp dir p b : Str) (fd td : List Str)
   simp only [specOfRel, hstrPath, hQ, htrim]
   cases esm with
   | false =>
+    have hbase_js := ext_none '.' 'j' 's' (by decide) (by decide) (by decide) tf (intercalate ['/'] S') htf htfs (hjs rfl)
     simp only [specGood, resolve, Bool.false_eq_true, if_false]
     have e1 := hpre' []
     simp only [List.append_nil] at e1
